@@ -163,3 +163,16 @@ CHECKS["C17"] = dict(CHECKS["C15"], pkg="props/c17",
     rule=CHECKS["C15"]["rule"].split("Oracle:")[0] + "The queue factory records every queue's creation, Shutdown() call and shutdown callback. Oracle: at every quiescent point at most one queue per peer is live (created, not told to stop, callback not run); at the end, a peer with no connection and no outstanding Connected has no live queue; if message part a was completely queued before part b was submitted, b never reaches SendMsg in an earlier message than a. Non-trivial: a transaction or connect happens while an older queue for the peer has been told to stop but has not finished winding down.",
     assumptions=_MQ_ASSUME,
     technique="rapid fault-history testing of the real peer manager / queue stack with lifecycle and FIFO oracles", design_ref="DESIGN.md §5 C17")
+
+_LIFE_ASSUME = _SIM_ASSUME + [
+    "every paused response is eventually unpaused or cancelled (the script's last phase does so), every storage gate is opened and every stalled send released before the final observation",
+    "a peer that sends a message is connected (the responder is told Connected before the message is delivered)",
+]
+CHECKS["C05"] = dict(
+    pkg="props/c05", level="fault_enumeration", gomaxprocs=1,
+    rule="one real responder (store = a generated DAG) and two scripted requestor peers; 1-4 New requests (DAG root or an inner block as root; request hook validates / does not validate / errors / pauses; outgoing-block hook pauses, errors or sends extension data at block 1-4), interleaved with 0-3 further operations per request from {requestor cancel message, requestor update message (extension that makes the update hook unpause / error / inert), responder API pause / unpause / cancel / SendUpdate, disconnect, open the storage gate, release stalled sends}; after each operation the harness either only waits for quiescence (no virtual time passes: retry back-offs and thaw tickers are still pending) or lets 5 s pass; 0-3 of the responder's first 13 SendMsg calls fail, 0-2 of its first 9 stall until released, 0-2 of its first 7 connect attempts fail, MessageSendRetries 1-2, the n-th storage read blocks until released (keeps a response Running), MaxInProgressIncomingRequests from {default,1,2} and per-peer limit {unset,1} (keeps responses Queued). Oracle at final quiescence (all gates open, + 1 min virtual): every received request has exactly one outcome - completed listener once with the terminal status last sent on the wire for it, or requestor-cancelled listener once (and only if its peer sent a cancel), or network-error listener(s) - and then PeerState lists no request state and no active/pending task for either peer, no connection tag is protected, no response memory is allocated or pending. Non-trivial: an operation hit a response still listed in PeerState, or a send/connect fault or stall actually happened. Two outcome patterns belonging to listed known findings are tolerated and counted.",
+    assumptions=_LIFE_ASSUME,
+    quick=dict(shards=2, timeout=400), thorough=dict(shards=16, timeout=3000),
+    level_text="Generated operation/fault scripts against a real responder with exact quiescence; the end-state oracle (one outcome, nothing retained) is checked after every script. Two defects found and fixed, two recorded.",
+    level_note="Intra-step goroutine interleavings are not controlled (GOMAXPROCS=1 makes them repeatable, not exhaustive).",
+    technique="rapid fault-script testing of a real responder in a synctest bubble with an end-state oracle", design_ref="DESIGN.md §4 C05")
